@@ -4,7 +4,7 @@
     Tool level: the zck input scanner (Chunk/ZckTool.v).  The reader's data path is joined in
     through the reader completeness theorem (Read/ReadComplete.v) and C02's soundness theorems. *)
 From ZV Require Import Base.Bytes Gen.GenConsts Format.Header Format.ParseImpl Format.HeaderWrite
-     Format.HeaderWriteProofs Format.WriteRead Chunk.Buzhash Chunk.BuzhashProofs Chunk.Writer Chunk.WriterProofs
+     Format.HeaderWriteProofs Format.ParseExamples Format.HeaderWriteExamples Format.WriteRead Chunk.Buzhash Chunk.BuzhashProofs Chunk.Writer Chunk.WriterProofs
      Chunk.ZckTool Chunk.ZckToolProofs Read.ReadSpec Read.CompRead Read.ReadComplete Format.RoundTrip.
 Local Open Scope N_scope.
 
@@ -121,3 +121,28 @@ Theorem C01_tool_read_error_reported : forall split blocks,
   exists ops, zck_tool split blocks RFail = ToolExit1 ops.
 Proof. exact zck_tool_read_error. Qed.
 Print Assumptions C01_tool_read_error_reported.
+
+(** RECORDED FINDING c01:index-over-int-max (known_findings.json), established here on every run: the property as stated
+    ("closing successfully yields a file that opens") is false of the faithful model for files whose index is longer than
+    INT_MAX bytes - the writer emits the index size as a size_t, the reader decodes it with compint_to_int.  The general
+    form, and a witness of 2^27 empty-digest entries (needs no byte of content; not reachable by a run of the check). *)
+Theorem C01_refuted_index_over_int_max : forall (H : N -> bytes -> bytes) cfg chunks ds,
+  (forall t m d, dsize t = Some d -> len (H t m) = d) ->
+  (forall t m, wf_bytes (H t m)) ->
+  dsize (w_hash cfg) = Some ds ->
+  (w_comp cfg = ZCK_COMP_NONE \/ w_comp cfg = ZCK_COMP_ZSTD) ->
+  Forall wchunk_wf chunks ->
+  lead_size cfg chunks + header_length cfg chunks + len (file_body chunks) <= SSIZE_MAX ->
+  INT_MAX < index_size cfg chunks ->
+  parse_impl H no_pins (file_create H cfg chunks) = PErr.
+Proof. exact written_file_index_over_int_max_rejected. Qed.
+Print Assumptions C01_refuted_index_over_int_max.
+
+Theorem C01_refuted_index_over_int_max_witness : forall n : nat,
+  N.of_nat n = big_n ->
+  let cs := repeat big_entry n in
+  lead_size exw_cfg cs + header_length exw_cfg cs + len (file_body cs) <= SSIZE_MAX /\
+  INT_MAX < index_size exw_cfg cs /\
+  parse_impl toyH no_pins (file_create toyH exw_cfg cs) = PErr.
+Proof. exact big_index_written_but_rejected. Qed.
+Print Assumptions C01_refuted_index_over_int_max_witness.
